@@ -99,10 +99,10 @@ theorem compiled_script_is_ops (ctx : Ctx) (h160 : Bytes → Bytes) (n : Ms) (ve
    is in `Sat`, has at most `max_stack_items` elements / `max_witness_size` bytes, runs within
    `max_ops`, and `satisfy` returns none when the spending condition is false.
    Proved below: T3 over the fragment set
-     S1 = { 0, 1, pk_k, c:, v:, a:, and_v, and_b, or_b, or_i }
+     S1 = { 0, 1, pk_k, c:, v:, a:, n:, and_v, and_b, or_b, or_c, or_d, or_i, andor }
    for every candidate satisfaction/dissatisfaction of the tables (canonical and overcomplete),
-   against the minimal semantics of Model/C15/Eval.lean.  Missing: s: n: d: j:, pk_h, older, after,
-   the hashes, multi, multi_a, or_c, or_d, andor, thresh; the satisfier's choice (`_better`) and
+   against the minimal semantics of Model/C15/Eval.lean.  Missing: s: d: j:, pk_h, older, after,
+   the hashes, multi, multi_a, thresh; the satisfier's choice (`_better`) and
    the bounds. -/
 
 /-- T3_partial: every typed expression of S1 does to the stack what its type promises — "B": a
@@ -129,14 +129,17 @@ theorem satisfaction_accepted_partial (sigOK : Key → Bytes → Bool) (hsig0 : 
   · intro hs; simpa using bs s [] [] [] rfl hs
   · intro hs; simpa using bd s [] [] [] rfl hs
 
-/-- non-vacuity: `or_i(and_v(v:c:pk_k(K),1), and_b(c:pk_k(K'),a:c:pk_k(K'')))` is in S1 and typed
-    "B"; with a signature for K the stack [1, σ] satisfies it. -/
+/-- non-vacuity: `or_i(and_v(v:c:pk_k(K),1), and_b(c:pk_k(K'),a:c:pk_k(K)))` and
+    `andor(c:pk_k(K),or_d(c:pk_k(K'),n:1),0)` are in S1 and typed "B"; with a signature for K the
+    stack [1, σ] satisfies the first. -/
 example :
     let k : Key := 2 :: List.replicate 32 7
     let k' : Key := 3 :: List.replicate 32 9
     let n : Ms := .bin .or_i (.bin .and_v (.wrap .v (.wrap .c (.pk_k k))) .f1)
       (.bin .and_b (.wrap .c (.pk_k k')) (.wrap .a (.wrap .c (.pk_k k))))
-    s1Typed .p2wsh n = true ∧ (typeOf .p2wsh n).B = true := by
+    let m : Ms := .andor (.wrap .c (.pk_k k)) (.bin .or_d (.wrap .c (.pk_k k')) (.wrap .n .f1)) .f0
+    s1Typed .p2wsh n = true ∧ (typeOf .p2wsh n).B = true ∧
+      s1Typed .tapscript m = true ∧ (typeOf .tapscript m).B = true := by
   decide
 
 example (sigOK : Key → Bytes → Bool) (k : Key) (σ : Bytes) (hσ : sigOK k σ = true) (y : Ms) :
